@@ -87,6 +87,13 @@ func allOfMembers(cfg gen.Config) []member {
 		base2.Ref = "$defs"
 		wrap("required-only branch first, then a referenced branch", &fam.Spec{Kind: "object", AllOf: []*fam.Spec{{Kind: "any", ReqOnly: []string{"note"}}, base2}})
 	}
+	// a referenced base whose `required` names, BEFORE its own property, one that only the sibling branch declares
+	{
+		ev := obj(&fam.Prop{Label: "id", Spec: str(), Required: true})
+		ev.Ref, ev.ReqAlso = "$defs", []string{"kind"}
+		wrap("referenced base also requires a sibling's property (listed first)", &fam.Spec{Kind: "object", AllOf: []*fam.Spec{ev,
+			obj(&fam.Prop{Label: "kind", Spec: str()}, &fam.Prop{Label: "x", Spec: &fam.Spec{Kind: "integer"}})}})
+	}
 	// three and four branches
 	for n := 3; n <= 4; n++ {
 		var bs []*fam.Spec
@@ -128,7 +135,7 @@ func C11(c *core.Ctx) {
 		"len(errs) equals the number of branches, every branch type has the unmarshaler that is called on it and enforces its own required/constraints (the C04/C05/C06 oracles applied per branch), the merged " +
 		"type exposes the union of the properties. allOf: the branch merge is delegated to mergo, which is MODELLED (summary stated in the assumptions); on that model the emitted single struct is compared " +
 		"with the specification of allOf — union of properties, a property declared by several branches carries the constraints of all of them, union of required (also from a constraint-only branch and through " +
-		"a referenced branch), 2..4 branches, as root and as a property. B-ERR instance: an unresolvable branch reference is an error. " +
+		"a referenced branch, a branch in another file whose properties refer by fragment into that file), 2..4 branches, as root and as a property. B-ERR instance: an unresolvable branch reference is an error. " +
 		"B-REFCACHE: the branch-resolution cache keyed by the raw $ref string belongs to the per-file generator object. " +
 		"Not decided: branch-order dependence beyond these families; non-object branches; the fidelity of the mergo model itself."
 	rules := ruleSet("A-ANYOF", "A-REQ", "A-REJ", "A-NOEXTRA", "A-NILG", "A-TAG", "A-MAP", "A-TYP")
@@ -150,6 +157,9 @@ func C11(c *core.Ctx) {
 			return append(keep, w.TypIssues(c.Prog.Repo)...)
 		})
 	}
+	// branches given by reference into ANOTHER file: the merged struct is built by the referring file's generator from the other
+	// document's nodes, whose fragment-only references still mean their own document
+	ruleMultiSel(c, ruleSet("A-GENERR", "A-REQ", "A-REJ", "A-NOEXTRA", "A-MAP", "A-TYP"), 2, "an allOf branch in another file with a fragment-only reference", "allOf branch in two files")
 	c.Floor("families", c.Counts["members"], 24, "family members")
 	a := engb.New(c.Prog)
 	emit(c, a.RefCacheScope())
